@@ -138,42 +138,7 @@ def check(chk):
                        "finds nothing and the handler outlives the mode" % (ms, m_.name, rms), construct=rm_.ident,
                        text="timed handler %s removed with ms=%s, registered with ms=%s" % (cb, rms, ms))
     chk.ob("PAIR-9", "timed switch handler add/remove pairs found (%d)" % n_tp, n_tp >= 1, "mpf/devices:1", text="timed handler pairs present")
-    # GATE-7: the previous run's clean-up (the completion callback of mode_<name>_stopped: handlers and devices removed) runs *after* the handlers
-    # of that event.  start() registers the new run's handlers and devices at once, so it must still be refused (or deferred) while that clean-up
-    # is outstanding: some flag that makes start() return early stays set through _stopped and is cleared only in the clean-up, after the removals.
-    stp_ = chk.repo.func(MD, "Mode._stopped")
-    stt_ = chk.repo.func(MD, "Mode.start")
-    chk.analysed(stp_, stt_)
-    gates_ = set()
-    for x in stt_.node.body:
-        if isinstance(x, ast.If) and x.body and isinstance(x.body[-1], ast.Return):
-            for y in ast.walk(x.test):
-                if isinstance(y, ast.Attribute) and isinstance(y.value, ast.Name) and y.value.id == "self" and isinstance(y.ctx, ast.Load) \
-                        and not isinstance(getattr(y, "_parent", None), ast.Call):
-                    gates_.add(y.attr)
-    gates_ = {g for g in gates_ if g.lstrip("_") in ("active", "starting", "stopping") or "pending" in g or "clean" in g}
-    chk.need(gates_, "GATE-7", "Mode.start refuses a request on lifecycle flags", stt_)
-    cbs_ = [kwarg(c, "callback") for c in stp_.calls() if call_attr(c) == "post" and kwarg(c, "callback") is not None]
-    chk.need(len(cbs_) == 1 and isinstance(cbs_[0], ast.Attribute), "GATE-7", "Mode._stopped posts mode_<name>_stopped with the clean-up as its callback", stp_)
-    cln_ = chk.repo.func(MD, "Mode." + cbs_[0].attr)
-    chk.analysed(cln_)
-    ccfg_ = cln_.cfg()
-    removals_ = [n for n, c in ccfg_.calls_named("_remove_mode_event_handlers", "_remove_mode_devices")]
-    chk.need(len(removals_) >= 2, "GATE-7", "the clean-up removes the mode's handlers and devices", cln_)
-
-    def _clears(fn, g):
-        return [x for x in walk_local(fn.node) if isinstance(x, ast.Assign) and src(x.targets[0]) in ("self." + g, "self." + g.lstrip("_"))
-                and src(x.value) in ("False", "None", "0")]
-    held_ = []
-    for g in sorted(gates_):
-        late = [x for x in _clears(cln_, g) if all(ccfg_.dominates(r.id, n.id) for r in removals_ for n in ccfg_.nodes if n.kind == "stmt" and n.ast is x)]
-        if not _clears(stp_, g) and late:
-            held_.append(g)
-    chk.ob("GATE-7", "start() is refused or deferred until the previous run's clean-up has removed that run's handlers and devices (a flag start() "
-           "tests stays set through _stopped and is cleared only after the removals)", bool(held_), stp_.where(),
-           detail="start() tests %s; _stopped clears %s before it posts the event whose completion callback (%s) does the removals: a start() issued "
-           "by a handler of mode_<name>_stopped is accepted and the clean-up then strips the new run" % (sorted(gates_),
-           [g for g in sorted(gates_) if _clears(stp_, g)], cln_.name), construct=stp_.ident, text="start accepted before the previous run's clean-up")
+    _gate7(chk)
     # the start callback belongs to one start request: every accepted start stores the callback it was given (None included), so a callback of
     # an earlier cycle cannot fire for a later start
     stf = chk.repo.func(MD, "Mode.start")
@@ -842,6 +807,49 @@ def _handler_keys(chk, repo):
            detail="keys grouped per event or filtered leave registrations behind when several keys share one event (a mode with two "
                   "conditional entries on the same event): the mode's handlers survive its stop and fire again in later runs",
            text="key list removal visits every key")
+
+
+def _gate7(chk):
+    # GATE-7: the previous run's clean-up (the completion callback of mode_<name>_stopped: handlers and devices removed) runs *after* the handlers
+    # of that event.  start() registers the new run's handlers and devices at once, so it must still be refused (or deferred) while that clean-up
+    # is outstanding: some flag that makes start() return early stays set through _stopped and is cleared only in the clean-up, after the removals.
+    stp_ = chk.repo.func(MD, "Mode._stopped")
+    stt_ = chk.repo.func(MD, "Mode.start")
+    chk.analysed(stp_, stt_)
+    gates_ = set()
+    for x in stt_.node.body:
+        if isinstance(x, ast.If) and x.body and isinstance(x.body[-1], ast.Return):
+            for y in ast.walk(x.test):
+                if isinstance(y, ast.Attribute) and isinstance(y.value, ast.Name) and y.value.id == "self" and isinstance(y.ctx, ast.Load) \
+                        and not isinstance(getattr(y, "_parent", None), ast.Call):
+                    gates_.add(y.attr)
+    gates_ = {g for g in gates_ if g.lstrip("_") in ("active", "starting", "stopping") or "pending" in g or "clean" in g}
+    if not gates_:
+        chk.ob("GATE-7", "Mode.start refuses a request on lifecycle flags", False, stt_.where(), construct=stt_.ident, text="start gates")
+        return
+    cbs_ = [kwarg(c, "callback") for c in stp_.calls() if call_attr(c) == "post" and kwarg(c, "callback") is not None]
+    if not (len(cbs_) == 1 and isinstance(cbs_[0], ast.Attribute)) or chk.repo.try_func(MD, "Mode." + cbs_[0].attr) is None:
+        return      # TRACE-2 / DOM-15 report a missing or different clean-up callback
+    cln_ = chk.repo.func(MD, "Mode." + cbs_[0].attr)
+    chk.analysed(cln_)
+    ccfg_ = cln_.cfg()
+    removals_ = [n for n, c in ccfg_.calls_named("_remove_mode_event_handlers", "_remove_mode_devices")]
+    if len(removals_) < 2:
+        return      # DOM-15 reports missing removals
+
+    def _clears(fn, g):
+        return [x for x in walk_local(fn.node) if isinstance(x, ast.Assign) and src(x.targets[0]) in ("self." + g, "self." + g.lstrip("_"))
+                and src(x.value) in ("False", "None", "0")]
+    held_ = []
+    for g in sorted(gates_):
+        late = [x for x in _clears(cln_, g) if all(ccfg_.dominates(r.id, n.id) for r in removals_ for n in ccfg_.nodes if n.kind == "stmt" and n.ast is x)]
+        if not _clears(stp_, g) and late:
+            held_.append(g)
+    chk.ob("GATE-7", "start() is refused or deferred until the previous run's clean-up has removed that run's handlers and devices (a flag start() "
+           "tests stays set through _stopped and is cleared only after the removals)", bool(held_), stp_.where(),
+           detail="start() tests %s; _stopped clears %s before it posts the event whose completion callback (%s) does the removals: a start() issued "
+           "by a handler of mode_<name>_stopped is accepted and the clean-up then strips the new run" % (sorted(gates_),
+           [g for g in sorted(gates_) if _clears(stp_, g)], cln_.name), construct=stp_.ident, text="start accepted before the previous run's clean-up")
 
 
 def battery():
